@@ -69,7 +69,8 @@ def define():
     # ---- C03: exchange kinds over two vectors in arbitrary states = the C01 cross-vector harnesses (registry asserts active)
     for e in all_entries_named(("c01_ins_yremove_ins__none_heap_stack_B3D", "c01_ins_yswapremove_push__none_stack_heap_B3D", "c01_ins_ydrain_ins__none_heap_heap_B3D",
                                 "c01_rem_remove_inserty__none_heap_stack_B3D", "c01_rem_swapremove_pushy__none_heap_heap_B3D", "c01_rem_remove_drop__none_heap_heap_B3D",
-                                "c01_rem_remove_downcast__none_stack_heap_B3D", "c01_clear_erased__none_heap_B3D", "c01_clear_erased__none_heap_Z0D", "c01_rem_remove_drop__none_heap_heap_Z0D")):
+                                "c01_rem_remove_downcast__none_stack_heap_B3D", "c01_clear_erased__none_heap_B3D", "c01_clear_erased__none_heap_Z0D", "c01_rem_remove_drop__none_heap_heap_Z0D",
+                                "c01_rem_swapremove_drop__none_heap_heap_Z0D", "c02_drain_erased__none_stack_B3D__cf3_ls3_ss3_es3_fs2_bs2", "c02_drain_typed__none_heap_B3D", "c02_drain_erased__none_heap_Z0D")):
         if "C03" not in e["props"]:
             e["props"].append("C03")
     # three vectors, 2-3 concrete steps, symbolic payloads (seeded rotation in quick, all in thorough)
